@@ -197,6 +197,23 @@ def Sys.run (s : Sys) (t : String) (bumps : List (String × Nat)) :
       | .error e => .error e
       | .ok (d', log) => .ok ({ s with dict := d' }, log)
 
+/-- `Trainer.run()` whose `train()` raises after having changed some parameters: the exception
+leaves `run` before `sync_models()` (and before `teardown()`), so nothing is synchronised. -/
+def Sys.runFail (s : Sys) (t : String) (bumps : List (String × Nat)) : Except Err Sys :=
+  match s.retrieved t with
+  | .error e => .error e
+  | .ok names =>
+    match trainModels names bumps s.dict.data with
+    | .error e => .error e
+    | .ok data' => .ok { s with dict := { s.dict with data := data' } }
+
+/-- `training_models[k] = model` after `launch()` has wired the system (the agent holds the live
+inference dictionary). -/
+def Sys.setItem (s : Sys) (k : String) (m : Model) : Except Err Sys :=
+  match s.dict.setItem k m with
+  | .error e => .error e
+  | .ok d' => .ok { s with dict := d' }
+
 def Sys.load (s : Sys) (saved : List (String × Nat)) : Except Err (Sys × List (String × ObjId)) :=
   match s.dict.loadState saved with
   | .error e => .error e
